@@ -3,7 +3,7 @@ well-defined hash/eq key."""
 import ast
 
 from ..initflow import attr_summary
-from ..model import src, short, walk_no_nested, call_name, is_self_attr, stmt_targets
+from ..model import src, short, walk_no_nested, call_name, is_self_attr, stmt_targets, cc
 from ..util import cfg_of, find_nodes, known_atoms, assigned_attrs
 
 DT = ("nifty.cl.domain_tuple", "DomainTuple")
@@ -536,3 +536,49 @@ def run(ctx):  # noqa: F811
     r08_7(ctx, m)
     r08_8(ctx, m, [c for c in m.subclasses(Dom) if not c.local])
     r08_9(ctx, m)
+
+
+def r08_10(ctx, m):
+    """isotropy shortcut of the unique k-lengths"""
+    from ..util import cfg_of, known_atoms
+    ctx.rule("R08.10", "RGSpace.get_unique_k_lengths: the closed-form shortcut for isotropic grids (k^2 = integer * d^2) is entered only "
+                       "under a test that compares ALL distances (np.all(distances == distances[0]) or an equivalent over the whole "
+                       "vector); a test of two selected axes lets anisotropic grids of three or more dimensions through", floor=1)
+    C = m.cls("nifty.cl.domains.rg_space", "RGSpace")
+    fi = C.methods.get("get_unique_k_lengths")
+    if fi is None:
+        ctx.error("R08.10: RGSpace.get_unique_k_lengths missing")
+        return
+    ctx.saw_func(fi)
+    cfg = cfg_of(fi)
+    # the shortcut: a return whose value is scaled by a single distance entry and that does not consult the k-length array
+    for n in cfg.nodes:
+        if n.kind != "stmt" or not isinstance(n.ast, ast.Return) or n.ast.value is None:
+            continue
+        v = src(n.ast.value)
+        if "self.distances[0]" not in v and "self._rdistances[0]" not in v:
+            continue
+        atoms = known_atoms(cfg, n.id)
+        tests = [(t, pol) for t, pol in atoms if "distances" in src(t)]
+        dim1 = any(pol and ("== 1" in cc(t)) for t, pol in atoms)
+        key = f"{fi.key}::`{short(n.ast, 50)}` is reached for isotropic grids only"
+        if dim1:
+            ctx.ok("R08.10", key, "one-dimensional grid", fi, n.ast)
+            continue
+        whole = [t for t, pol in tests if pol and any(isinstance(c, ast.Call) and call_name(c) in ("all", "allclose", "array_equal", "ptp", "unique", "set") for c in ast.walk(t))]
+        pair = [t for t, pol in tests if pol and isinstance(t, ast.Compare) and all(isinstance(x, ast.Subscript) for x in [t.left] + list(t.comparators))]
+        if whole:
+            ctx.ok("R08.10", key, f"guard `{src(whole[0])}`", fi, n.ast)
+        elif pair:
+            ctx.bad("R08.10", key, f"guard `{src(pair[0])}` compares two entries only: an anisotropic grid with equal first and last "
+                                   "distance takes the isotropic closed form", fi, n.ast)
+        else:
+            ctx.und("R08.10", key, f"guards {[src(t) for t, p in tests]}", fi, n.ast)
+
+
+_run_c08d = run
+
+
+def run(ctx):  # noqa: F811
+    _run_c08d(ctx)
+    r08_10(ctx, ctx.model)
